@@ -25,6 +25,11 @@ func runScript(script string, stdin string, files map[string]string, extraPath s
 }
 
 func runScriptT(script string, stdin string, files map[string]string, extraPath string, limit time.Duration) scriptResult {
+	return runScriptL(script, stdin, files, extraPath, limit, "C")
+}
+
+// runScriptL: the script under /bin/bash with LC_ALL set to the given locale
+func runScriptL(script string, stdin string, files map[string]string, extraPath string, limit time.Duration, locale string) scriptResult {
 	dir, _ := os.MkdirTemp("", "run")
 	defer os.RemoveAll(dir)
 	work := filepath.Join(dir, "w")
@@ -41,7 +46,7 @@ func runScriptT(script string, stdin string, files map[string]string, extraPath 
 	if extraPath != "" {
 		path = extraPath + ":" + path
 	}
-	cmd.Env = []string{"PATH=" + path, "HOME=" + work, "LC_ALL=C"}
+	cmd.Env = []string{"PATH=" + path, "HOME=" + work, "LC_ALL=" + locale}
 	cmd.Stdin = strings.NewReader(stdin)
 	cmd.SysProcAttr = &syscall.SysProcAttr{Setpgid: true} // so that everything the script forks can be killed with it
 	cmd.WaitDelay = time.Second                           // do not wait for orphans that keep the pipes open
@@ -81,7 +86,9 @@ func runScriptT(script string, stdin string, files map[string]string, extraPath 
 }
 
 // runRun: transpile to Bash with the real library and execute: out=<hex> status=<n> stderr=<hex>
-func runRun(f []string) string {
+func runRun(f []string) string { return runRunLocale(f, "C") }
+
+func runRunLocale(f []string, locale string) string {
 	dir, _ := os.MkdirTemp("", "rr")
 	defer os.RemoveAll(dir)
 	real := materialise(dir, unhx(f[2]), parseFiles(f[3]))
@@ -89,7 +96,7 @@ func runRun(f []string) string {
 	if !strings.HasPrefix(t, "ok:") {
 		return "transpile=" + t
 	}
-	r := runScript(unhx(t[3:]), "", nil, "")
+	r := runScriptL(unhx(t[3:]), "", nil, "", 10*time.Second, locale)
 	if r.timeout {
 		return "transpile=ok timeout=1"
 	}
